@@ -4,7 +4,7 @@ import os, socket, struct, subprocess, threading, time
 import cli
 from frames import df17, short, me_ident, callsign_codes, enc_alt13
 
-FAULTS = ['refuse', 'close', 'frames', 'partial', 'junk']
+FAULTS = ['refuse', 'close', 'frames', 'partial', 'partialfin', 'junk']
 
 
 def free_port():
@@ -31,6 +31,20 @@ def frames_for(k):
 
 
 def run_scenario(binary, faults, idx):
+    # a socket-level accident on the peer's side (port taken in the meantime, ...) says nothing about the decoder: play the
+    # scenario again on another port, and give up as a tool error if that fails too
+    last = None
+    for attempt in range(3):
+        try:
+            return run_scenario_once(binary, faults, idx)
+        except OSError as e:
+            last = e
+            time.sleep(0.5 + attempt)
+    from vlib import ToolError
+    raise ToolError('tcp peer failed three times for %s: %r' % (list(faults), last))
+
+
+def run_scenario_once(binary, faults, idx):
     port = free_port()
     seq = list(faults) + ['healthy']
     t0 = time.time()
@@ -90,8 +104,17 @@ def run_scenario(binary, faults, idx):
                 part = list(b'8D4840D6202CC371C3')          # a truncated frame without line end
                 payload += bytes(part)
                 rec['partial'] = part
+            if kind == 'partialfin':
+                # closed (FIN, not reset) in the middle of a line: the bytes received so far are a malformed line - here a
+                # complete 56-bit reply of an aircraft nobody heard plus one more digit of whatever was to follow
+                part = list((short(4, enc_alt13(20000 + 100 * k), 0x4f2000 + k) + '8').encode())
+                payload += bytes(part)
+                rec['partial'] = part
             if payload:
-                c.sendall(payload)
+                try:
+                    c.sendall(payload)
+                except OSError:
+                    pass              # the decoder went away: liveness and reconnection are judged from what follows
             if kind == 'healthy':
                 # wait until the last refresh lists the new aircraft (or give up after 6 s)
                 want = ('%06X' % (0x4f0000 + k)).encode()
